@@ -41,7 +41,7 @@ def gen_config(rng):
 
 
 def generate(seed, prop, tier, index=0):
-    if index % 12 == 5:
+    if index % 6 == 5:
         from engines import robot
         return robot.generate_integration(seed, prop, tier, index)
     rng = random.Random(seed)
